@@ -123,7 +123,8 @@ def main():
             rep.append(f"{rel}: {len(hit)}/{tot} instrumented production lines executed")
             src = open(f).read().split("\n")
             for a, z in ranges:
-                rep.append(f"   not executed {a}-{z}: {(src[a-1].strip()[:100] if a-1 < len(src) else "")}")
+                first = src[a - 1].strip()[:100] if a - 1 < len(src) else ""
+                rep.append(f"   not executed {a}-{z}: {first}")
         open(os.path.join(ROOT, "coverage", pid + ".txt"), "w").write(
             f"# {pid} tier={tier} n={n}: corpus + generated cases of harness bin c{pid[1:].lower()}\n" + "\n".join(rep) + "\n")
         print(f"{pid}: " + "; ".join(x.split(" instrumented")[0] for x in rep if not x.startswith("   ")))
